@@ -27,8 +27,8 @@ class Instance:
     """alleles: {name: (configuration, [core variants])}; structure: {configuration: copies}; reads: {variant or (pos,'_'): reads};
     single: {pos: single-copy depth} (default 10); no_cov: {(allele, pos)}: positions an allele has no copy of (fusions)."""
 
-    def __init__(self, alleles, structure, reads, single=None, no_cov=(), major_novel=21.0, present=None):
-        self.alleles, self.structure, self.reads = alleles, structure, reads
+    def __init__(self, alleles, structure, reads, single=None, no_cov=(), major_novel=21.0, present=None, gaps=(0.0, 0.1, 0.5)):
+        self.alleles, self.structure, self.reads, self.gaps = alleles, structure, reads, tuple(gaps)
         self.single, self.no_cov, self.major_novel = dict(single or {}), set(no_cov), major_novel
         self.catalogue = sorted({m for _, ms in alleles.values() for m in ms} | set(present or ()))
 
@@ -83,7 +83,16 @@ def fold_solve_major(repo, inst: Instance, gap, wrapper=None, every=False):
 
     gene = Obj(name="G", alleles=allele_dict, mutations={tuple(m): ("fn", "rs", 0, 0, "") for m in inst.catalogue},
                is_functional=lambda m, infer=True: True, has_coverage=lambda a, pos: (a, pos) not in inst.no_cov)
-    structure = Obj(solution=collections.Counter(inst.structure), _solution_nice=lambda: "S")
+    cfg_no = {(inst.alleles[a][0], pos) for a, pos in inst.no_cov}
+
+    def position_cn(pos):
+        """Gene copies of the structure at a position; none where the instance gives the position no single-copy depth."""
+        if inst.depth(pos) == 0:
+            return 0
+        return sum(cnt for cfg_, cnt in inst.structure.items() if (cfg_, pos) not in cfg_no)
+
+    structure = Obj(solution=collections.Counter(inst.structure), _solution_nice=lambda: "S", position_cn=position_cn,
+                    max_cn=lambda: sum(inst.structure.values()))
     fn = Lifted(f, funcs={"lpinterface.model": mk, "Mutation": Mut, "_print_candidates": lambda *a: None,
                           "SolvedAllele": lambda g, major=None, **k: Rec(major=major),
                           "MajorSolution": lambda score=None, solution=None, cn_solution=None, added=None: Obj(
